@@ -1,6 +1,6 @@
 /-
 Model of `cert/sign.go`: `TBSCertificate.SignWith` (guards, issuer, `fromTBSCertificate`+`validate`,
-`marshalForSigning`, the signer lambda, P-256 `Normalize`, `setSignature`) and the `Sign` wrapper.
+`marshalForSigning`, the signer lambda, P-256 `Normalize`, `setSignature`, the v2 size guard) and the `Sign` wrapper.
 A to-be-signed certificate is a `Cert` whose `issuer` and `signature` are ignored.
 
 Oracles (never proved, DESIGN.md §4.7): the signer's fingerprint, the bytes-to-sign codec, the signing
@@ -21,11 +21,14 @@ structure SignEnv where
   sign : Bytes → Option Bytes
   /-- `p256.Normalize`; `none` = unparsable signature. -/
   normalize : Bytes → Option Bytes
+  /-- `len(Marshal()) > MaxCertificateSize` for the signed certificate (consulted for v2 only): the decoder
+  refuses longer encodings. The codec's own function is `V2.tooLarge` (Model/CertV2.lean). -/
+  tooLarge : Cert → Bool
 
 inductive SignErr where
   | invalidCurve | keyParse
   | keyCurveMismatch | caSignedByAnother | constraint (e : CErr) | issuerFingerprint | selfSignedNotCA
-  | invalid (e : InvErr) | unknownVersion | marshal | signer | normalize | emptySignature
+  | invalid (e : InvErr) | unknownVersion | marshal | signer | normalize | emptySignature | tooLarge
   deriving DecidableEq, Repr
 
 /-- whole seconds of an instant given in nanoseconds (`time.Unix(t.Unix(), 0)`). -/
@@ -35,8 +38,8 @@ def floorSec (t : Int) : Int := t / 1000000000 * 1000000000
 def fromTBS (t : Cert) (issuer : String) : Cert :=
   { t with notBefore := floorSec t.notBefore, notAfter := floorSec t.notAfter, issuer := issuer, signature := [] }
 
-/-- `SignWith(signer, curve, sp)`. -/
-def signWith (E : SignEnv) (signer : Option Cert) (keyCurve : Nat) (t : Cert) : Except SignErr Cert :=
+/-- `SignWith(signer, curve, sp)` up to and including `setSignature`. -/
+def signWithUnsized (E : SignEnv) (signer : Option Cert) (keyCurve : Nat) (t : Cert) : Except SignErr Cert :=
   if keyCurve ≠ t.curve then .error .keyCurveMismatch
   else
     let issuer : Except SignErr String :=
@@ -68,6 +71,13 @@ def signWith (E : SignEnv) (signer : Option Cert) (keyCurve : Nat) (t : Cert) : 
             | some sig =>
               if sig.length == 0 then .error .emptySignature
               else .ok { c with signature := sig }
+
+/-- `SignWith(signer, curve, sp)`: the above, then a v2 certificate whose encoding the decoder would refuse for
+its size is not issued. -/
+def signWith (E : SignEnv) (signer : Option Cert) (keyCurve : Nat) (t : Cert) : Except SignErr Cert :=
+  match signWithUnsized E signer keyCurve t with
+  | .error e => .error e
+  | .ok c => if c.version = 2 ∧ E.tooLarge c = true then .error .tooLarge else .ok c
 
 /-- `Sign(signer, curve, key)`: dispatch on the certificate's curve, then `SignWith`. `keyParses` is the
 outcome of `ecdsa.ParseRawPrivateKey` (P-256 only). -/
